@@ -348,9 +348,14 @@ func thresholds(commitFull, govSeqMax, govInjMax, ledgerSolo, ledgerVbft int, pa
 	vio.Flush()
 	// ---- ledger verifyHeader (sequential: the consensus mode is a process-wide setting)
 	ledgerSite := func(mode, rule, cond string, n int, expect int, op string) {
-		w := openWorld(mode, rule, cond, n, rng)
-		defer w.close()
 		t := tres{Site: "ledger-" + mode + "-" + rule + "-" + op, N: n, Expect: expect, Least: -1, Shape: cond}
+		w, err := tryOpenWorld(mode, rule, cond, n, rng)
+		if err != nil {
+			// more bookkeepers than a multi-signature address allows (16): such a solo chain cannot be created
+			vio.Emit(map[string]interface{}{"skipped": true, "what": t.Site, "n": n, "err": err.Error()})
+			return
+		}
+		defer w.close()
 		for k := 0; k <= n; k++ {
 			a := absHeader{Bk: seq1(k), Sg: seq1(k), Body: "ok"}
 			if mode == "solo" {
